@@ -34,7 +34,12 @@ Cmps5 == {Cmp(Col("", "a"), op, Lit(IntV(n))) : op \in Ops, n \in {1, 2}}
          \cup {Cmp(Col("t5", "a"), "<", Col("", "g"))}
 Core5 == {Cmp(Col("", "a"), "=", Lit(IntV(1))), Cmp(Col("", "s"), ">", Lit(StrV(<<A>>))), Cmp(Col("", "c"), "=", Lit(BoolV(TRUE))),
           Cmp(Col("", "a"), ">=", Lit(IntV(2))), Cmp(Col("", "g"), "!=", Lit(IntV(6)))}
+\* comparisons without a column (what query builders write): true and false
+Const5 == {Cmp(Lit(IntV(1)), "=", Lit(IntV(1))), Cmp(Lit(IntV(1)), "=", Lit(IntV(2)))}
 Wheres5 == {<<>>} \cup {<< <<c>> >> : c \in Cmps5}
+           \cup {<< <<k>> >> : k \in Const5}
+           \cup {<< <<k, d>> >> : k \in Const5, d \in Core5} \cup {<< <<d, k>> >> : k \in Const5, d \in Core5}
+           \cup {<< <<k, d>>, <<k, e>> >> : k \in Const5, d \in Core5, e \in Core5} \cup {<< <<k>>, <<d>> >> : k \in Const5, d \in Core5}
            \cup {<< <<c, d>> >> : c \in Cmps5, d \in Core5} \cup {<< <<c>>, <<d>> >> : c \in Cmps5, d \in Core5}
            \cup {<< <<c, d>>, <<e>> >> : c \in Core5, d \in Core5, e \in Core5}      \* c AND d OR e
            \cup {<< <<c>>, <<d, e>> >> : c \in Core5, d \in Core5, e \in Core5}      \* c OR d AND e
@@ -120,15 +125,19 @@ SP == 32
 UV == {<<StrV(<<A, SP, B>>), StrV(<<99>>)>>, <<StrV(<<A>>), StrV(<<B, SP, 99>>)>>}
 \* grouping values that collide when printed and concatenated: (1,23) vs (12,3); measures with NULLs
 Rows7 == {<<IntV(p[1]), IntV(p[2]), IntV(m), n, uv[1], uv[2]>> : p \in {<<1, 23>>, <<12, 3>>, <<1, 2>>}, m \in {0, 1, 2, 101, -5, -8}, n \in {Null, IntV(3)}, uv \in UV}
-Tables7 == {[cols |-> Cols7, rows |-> r] : r \in SeqsUpTo(Rows7, 2)}
+Tables7Base == {[cols |-> Cols7, rows |-> r] : r \in SeqsUpTo(Rows7, 2)}
            \cup {[cols |-> Cols7, rows |-> <<r1, r2 \o uv, r3 \o uv>>] : r1 \in Rows7, uv \in UV, r2 \in {<<IntV(1), IntV(23), IntV(0), Null>>, <<IntV(12), IntV(3), IntV(1), IntV(3)>>},
                      r3 \in {<<IntV(1), IntV(23), IntV(1), IntV(3)>>, <<IntV(1), IntV(2), IntV(0), Null>>}}
            \cup {[cols |-> Cols7, rows |-> [i \in 1..4 |-> <<IntV(1), IntV(2), IntV(m[i]), Null, StrV(<<A>>), StrV(<<B>>)>>]] : m \in {<<1, 0, 0, 0>>, <<0, 0, 0, 1>>, <<2, 1, 1, 1>>, <<0, 1, 0, 1>>, <<101, 0, 0, 2>>,
                                                                                                                                    <<-5, -5, -5, -4>>, <<-7, -3, -4, -5>>, <<-1, 0, -2, 3>>}}
+\* a nullable BOOLEAN column f at the end (TRUE where m is positive, NULL elsewhere): COUNT(f) counts booleans too
+AddF(row) == row \o <<IF row[3].v > 0 THEN BoolV(TRUE) ELSE Null>>
+Tables7 == {[cols |-> t.cols \o <<[n |-> "f", ty |-> "b"]>>, rows |-> [i \in 1..Len(t.rows) |-> AddF(t.rows[i])]] : t \in Tables7Base}
 Agg(k, c) == Item(k, Ref("", c), NoCmp, "")
 ListGroups7 ==
   {[list |-> <<Agg("count", "")>>, group |-> <<>>], [list |-> <<Agg("avg", "m"), Agg("countcol", "n")>>, group |-> <<>>],
    [list |-> <<Agg("countcol", "n")>>, group |-> <<>>], [list |-> <<Agg("avg", "m")>>, group |-> <<>>],       \* a lone aggregate
+   [list |-> <<Agg("countcol", "f"), Agg("count", "")>>, group |-> <<>>], [list |-> <<ColItem("", "p", ""), Agg("countcol", "f")>>, group |-> <<Ref("", "p")>>],
    [list |-> <<Item("countcol", Ref("", "n"), NoCmp, "c")>>, group |-> <<>>],
    [list |-> <<Agg("countcol", "n"), Agg("count", ""), Agg("avg", "m")>>, group |-> <<>>],
    [list |-> <<ColItem("", "p", ""), Agg("count", "")>>, group |-> <<Ref("", "p")>>],
@@ -149,6 +158,8 @@ JoinListGroups7 ==
   {[list |-> <<ColItem("x", "p", ""), Agg("count", ""), QAgg("avg", "x", "m"), QAgg("avg", "y", "m")>>, group |-> <<Ref("x", "p")>>],
    [list |-> <<QAgg("avg", "y", "m"), QAgg("avg", "x", "m")>>, group |-> <<>>],
    [list |-> <<QAgg("countcol", "y", "n")>>, group |-> <<>>],
+   [list |-> <<ColItem("x", "q", ""), ColItem("y", "q", ""), Agg("count", "")>>, group |-> <<Ref("x", "q"), Ref("y", "q")>>],
+   [list |-> <<ColItem("y", "m", ""), ColItem("x", "m", ""), QAgg("countcol", "x", "n")>>, group |-> <<Ref("y", "m"), Ref("x", "m")>>],
    [list |-> <<ColItem("y", "q", "g"), QAgg("countcol", "x", "n"), QAgg("avg", "x", "q")>>, group |-> <<Ref("", "g")>>]}
 Wheres7 == {<<>>, << <<Cmp(Col("", "m"), "<", Lit(IntV(100)))>> >>, << <<Cmp(Col("", "p"), "=", Lit(IntV(1)))>>, <<Cmp(Col("", "q"), "=", Lit(IntV(3)))>> >>}
 
